@@ -66,13 +66,56 @@ func vC11Call(k int, idx string) func() string {
 		return func() string {
 			return vErrText(Map(map[string]string{"k": s}, NewRule().Set("k", "required,ge=2")))
 		}
-	default:
+	case 6:
 		s := vPlainText("u"+idx, 1)
 		return func() string { return vErrText(Url("h?k="+s, NewRule().Set("k", "required,ge=2"))) }
+	case 7:
+		a := vStr("A" + idx)
+		return func() string { return vErrText(StructForFn(&vP1{A: a, B: 9}, RM{"B": "le=3|B too big"}, "alt")) }
+	case 8:
+		a := vStr("A" + idx)
+		return func() string {
+			return vErrText(NestedStructForRule(&vP2{A: "13800000000", N: vP1{A: a, B: 1}}, map[interface{}]RM{&vP1{}: {"A": "required|nested own rule"}}))
+		}
+	case 9:
+		a := vStr("A" + idx)
+		return func() string { return vErrText(ValidStructForRule(RM{"A": "eq=1|one char"}, &vP1{A: a, B: 1})) }
+	case 10:
+		a := vStr("A" + idx)
+		return func() string {
+			fn := func(errBuf *strings.Builder, validName, objName, fieldName string, tv reflect.Value) {
+				errBuf.WriteString(GetJoinValidErrStr(objName, fieldName, tv.String(), "explain: my phone "+idx))
+			}
+			return vErrText(ValidStructForMyValidFn(&vP2{A: "x" + a, N: vP1{A: "a", B: 1}}, "phone", fn))
+		}
+	case 11:
+		s := vStr("m" + idx)
+		return func() string {
+			fn := func(errBuf *strings.Builder, validName, objName, fieldName string, tv reflect.Value) {
+				errBuf.WriteString(GetJoinValidErrStr(objName, fieldName, tv.String(), "explain: map fn "+idx))
+			}
+			return vErrText(MapFn(map[string]string{"k": "v" + s}, NewRule().Set("k", "mine,le=1"), Name2FnMap{"mine": fn}))
+		}
+	case 12:
+		s := vStr("v" + idx)
+		return func() string {
+			fn := func(errBuf *strings.Builder, validName, objName, fieldName string, tv reflect.Value) {
+				errBuf.WriteString(GetJoinValidErrStr(objName, fieldName, tv.String(), "explain: var fn "+idx))
+			}
+			return vErrText(VarForFn("v"+s, fn))
+		}
+	default:
+		s := vPlainText("u"+idx, 1)
+		return func() string {
+			fn := func(errBuf *strings.Builder, validName, objName, fieldName string, tv reflect.Value) {
+				errBuf.WriteString(GetJoinValidErrStr(objName, fieldName, tv.String(), "explain: url fn "+idx))
+			}
+			return vErrText(UrlForFn("h?k="+s, "mine", fn))
+		}
 	}
 }
 
-const vC11NCalls = 7
+const vC11NCalls = 14
 
 func vC11Two(ka, kb int) {
 	c1 := vC11Call(ka, "a")
@@ -84,32 +127,47 @@ func vC11Two(ka, kb int) {
 	vGo(func() { got1 = c1() })
 	vGo(func() { got2 = c2() })
 	vJoin()
+	// what the concurrent calls left behind (cache entries, pooled objects, registered names) must not
+	// change later calls either
+	post1, post2 := c1(), c2()
 	cacheStructType = NewLRU(1)
 	want1 := c1()
 	want2 := c2()
 	vAssert(got1 == want1, "C11 first call returns its solo result")
 	vAssert(got2 == want2, "C11 second call returns its solo result")
+	vAssert(post1 == want1 && post2 == want2, "C11 calls after the concurrent phase return their solo results")
 	vNativeStress("C11 stress: a call returned something else than its solo result", func() bool { return c1() == want1 }, func() bool { return c2() == want2 })
 	vReach("end")
 }
 
-func H_C11_struct_struct()  { vC11Two(0, 0) }
-func H_C11_struct_alt()     { vC11Two(0, 1) }
-func H_C11_struct_nested()  { vC11Two(0, 2) }
-func H_C11_alt_nested()     { vC11Two(1, 2) }
-func H_C11_struct_fns()     { vC11Two(0, 3) }
-func H_C11_nested_fns()     { vC11Two(2, 3) }
-func H_C11_struct_var()     { vC11Two(0, 4) }
-func H_C11_var_var()        { vC11Two(4, 4) }
-func H_C11_var_map()        { vC11Two(4, 5) }
-func H_C11_map_url()        { vC11Two(5, 6) }
-func H_C11_nested_url()     { vC11Two(2, 6) }
-func H_C11_fns_fns()        { vC11Two(3, 3) }
-func H_C11T_nested_nested() { vC11Two(2, 2) }
-func H_C11T_alt_alt()       { vC11Two(1, 1) }
-func H_C11T_alt_fns()       { vC11Two(1, 3) }
-func H_C11T_struct_map()    { vC11Two(0, 5) }
-func H_C11T_url_url()       { vC11Two(6, 6) }
+func H_C11_struct_struct()      { vC11Two(0, 0) }
+func H_C11_struct_alt()         { vC11Two(0, 1) }
+func H_C11_struct_nested()      { vC11Two(0, 2) }
+func H_C11_alt_nested()         { vC11Two(1, 2) }
+func H_C11_struct_fns()         { vC11Two(0, 3) }
+func H_C11_nested_fns()         { vC11Two(2, 3) }
+func H_C11_struct_var()         { vC11Two(0, 4) }
+func H_C11_var_var()            { vC11Two(4, 4) }
+func H_C11_var_map()            { vC11Two(4, 5) }
+func H_C11_map_url()            { vC11Two(5, 6) }
+func H_C11_nested_url()         { vC11Two(2, 6) }
+func H_C11_fns_fns()            { vC11Two(3, 3) }
+func H_C11_forfn_rule()         { vC11Two(7, 9) }
+func H_C11_nestedrule_my()      { vC11Two(8, 10) }
+func H_C11_mapfn_varfn()        { vC11Two(11, 12) }
+func H_C11_varfn_varfn()        { vC11Two(12, 12) }
+func H_C11_varfn_var()          { vC11Two(12, 4) }
+func H_C11_urlfn_url()          { vC11Two(13, 6) }
+func H_C11_my_struct()          { vC11Two(10, 0) }
+func H_C11T_urlfn_urlfn()       { vC11Two(13, 13) }
+func H_C11T_mapfn_map()         { vC11Two(11, 5) }
+func H_C11T_my_my()             { vC11Two(10, 10) }
+func H_C11T_nestedrule_nested() { vC11Two(8, 2) }
+func H_C11T_nested_nested()     { vC11Two(2, 2) }
+func H_C11T_alt_alt()           { vC11Two(1, 1) }
+func H_C11T_alt_fns()           { vC11Two(1, 3) }
+func H_C11T_struct_map()        { vC11Two(0, 5) }
+func H_C11T_url_url()           { vC11Two(6, 6) }
 
 // three goroutines
 func H_C11T_three() {
@@ -204,3 +262,40 @@ func H_C11_quoted_rules() {
 	vNativeStress("C11 stress: a call returned something else than its solo result", func() bool { return c1() == w1 }, func() bool { return c2() == w2 })
 	vReach("end")
 }
+
+// deeply nested values in both goroutines (a chain of sub-objects): whatever per-call bookkeeping the
+// walker keeps while it descends must be private to the call. The schedules explored are those with at
+// most one (quick) or two (thorough) preemptive switches.
+type vP6 struct {
+	V    string `valid:"required"`
+	Next *vP6   `valid:"exist"`
+}
+
+func vMkP6(levels int, leaf string) *vP6 {
+	cur := &vP6{V: leaf}
+	for i := 1; i < levels; i++ {
+		cur = &vP6{V: "v", Next: cur}
+	}
+	return cur
+}
+
+func vC11Deep(levels, bound int) {
+	a, b := vMkP6(levels, vStr("a")), vMkP6(levels, vStr("b"))
+	c1 := func() string { return vErrText(Struct(a)) }
+	c2 := func() string { return vErrText(Struct(b)) }
+	cacheStructType = NewLRU(1)
+	var g1, g2 string
+	vSchedBound(bound)
+	vGo(func() { g1 = c1() })
+	vGo(func() { g2 = c2() })
+	vJoin()
+	vSchedBound(-1)
+	w1, w2 := c1(), c2()
+	vAssert(g1 == w1 && g2 == w2, "C11 deep values: solo results")
+	vNativeStress("C11 stress: a call returned something else than its solo result", func() bool { return c1() == w1 }, func() bool { return c2() == w2 })
+	vReach("end")
+}
+
+func H_C11_deep12()  { vC11Deep(12, 1) }
+func H_C11T_deep40() { vC11Deep(40, 1) }
+func H_C11T_deep12() { vC11Deep(12, 2) }
